@@ -904,11 +904,7 @@ class OptionStore:
             raise MesonException(f'Internal error: all compiler option names must start with language prefix. ({key.name} vs {language}_)')
         self.add_system_option(key, valobj)
 
-    def add_project_option(self, key: T.Union[OptionKey, str], valobj: AnyOptionType) -> None:
-        key = self.ensure_and_validate_key(key)
-        assert key.subproject is not None
-        if key in self.options:
-            raise MesonException(f'Internal error: tried to add a project option {key} that already exists.')
+    def link_to_parent(self, key: OptionKey, valobj: AnyOptionType) -> None:
         if valobj.yielding and key.subproject:
             parent_key = key.as_root()
             try:
@@ -922,6 +918,13 @@ class OptionStore:
                 # project does not have an option of the same
                 pass
         valobj.yielding = valobj.parent is not None
+
+    def add_project_option(self, key: T.Union[OptionKey, str], valobj: AnyOptionType) -> None:
+        key = self.ensure_and_validate_key(key)
+        assert key.subproject is not None
+        if key in self.options:
+            raise MesonException(f'Internal error: tried to add a project option {key} that already exists.')
+        self.link_to_parent(key, valobj)
 
         self.options[key] = valobj
         self.project_options.add(key)
@@ -1426,6 +1429,12 @@ class OptionStore:
                 # If the choices have changed, use the new value, but attempt
                 # to keep the old options. If they are not valid keep the new
                 # defaults but warn.
+                # The new object yields to its parent like a newly added
+                # option, unless the user has set the old one for this
+                # subproject only.
+                self.link_to_parent(key, value)
+                if oldval.parent is not None:
+                    value.yielding = value.yielding and oldval.yielding
                 self.options[key] = value
                 # The options that yield to the old object yield to the new one.
                 for child in self.options.values():
